@@ -44,6 +44,12 @@ public:
             throw_error("can't open file: `{}`", path);
         }
         output_stream << data;
+        // flush explicitly: errors reported by the destructor would be lost
+        output_stream.close();
+        if(!output_stream)
+        {
+            throw_error("can't write file: `{}`", path);
+        }
     }
 
     void create_directories(const std::filesystem::path& path) override
